@@ -30,6 +30,9 @@ let () =
     if obs = ["PANIC"] then
       (incr mism; Printf.printf "CORR-MISMATCH case=%s impl panicked, model does not\n" id)
     else begin
+      (* via=direct|ris only tells the harness how to drive the implementation; the glue maps stream
+         events to the same operations (Model.Merged.glue) *)
+      let inp = List.filter (fun t -> not (String.length t > 4 && String.sub t 0 4 = "via=")) inp in
       let ops = List.map parse_op inp in
       let t = ref empty and a = ref [] in
       let bad = ref None in
